@@ -103,7 +103,7 @@ class GenCheck:
             case, make = picked[0], picked[1]
             case = dict(case, library_history=i)
             sub, san = Rec(self.pid, rec.shard), Rec(self.pid, rec.shard)
-            run_history(sub, make, rnd, spec["cycles"], case, drain=0, san_rec=san)
+            run_history(sub, make, rnd, spec["cycles"], case, drain=40, san_rec=san)
             if sub.viol_total:
                 rec.count("foreign_alarm:component_model:" + name.upper())
             transfer(san, rec, self.own)
@@ -135,7 +135,7 @@ class GenCheck:
                 core.check_c11(sub, D, rnd, case)
                 transfer(sub, rec, self.own)
                 continue
-            A = core.repair(D, rnd)
+            A = core.repair(D, rnd, keep_same_trans=True, keep_unsat_same_trans=bool(self.opts.get("p_same_trans_conflict")))
             if A is None:
                 rec.count("unrepairable_designs")
                 continue
